@@ -3,7 +3,7 @@ from . import c08
 
 PROP = "C09"
 THEOREMS = ["ArbF.next_owner_is_closest", "ArbF.owner_stays", "ArbF.no_starvation", "ArbF.waiting_distance_decreases", "Arb.next_is_closest", "Arb.served"]
-IMPORTS = ["SocVerif"]
+IMPORTS = ["SocVerif.Props.C08"]
 
 
 def run(rep, tier):
